@@ -65,6 +65,20 @@ def check(ctx, tree, leaves0, dsl, cfg):  # noqa: C901, PLR0912, PLR0915
     entries = spec.entries()
     if optree.treespec_children(spec) != children or optree.treespec_entries(spec) != entries:
         ctx.violation('ops-wrappers', keyf('ops-wrappers'), case, 'treespec_children/entries differ')
+    # module-level twins of the inspection methods
+    twins = {
+        'treespec_is_one_level': (optree.treespec_is_one_level(spec), spec.is_one_level()),
+        'treespec_is_strict_leaf': (optree.treespec_is_strict_leaf(spec), spec.is_leaf(strict=True)),
+        'treespec_paths': (optree.treespec_paths(spec), spec.paths()),
+        'treespec_accessors': (optree.treespec_accessors(spec), spec.accessors()),
+        'treespec_one_level': (optree.treespec_one_level(spec), spec.one_level()),
+        'treespec_is_prefix': (optree.treespec_is_prefix(spec, spec), spec.is_prefix(spec)),
+        'treespec_is_suffix': (optree.treespec_is_suffix(spec, spec), spec.is_suffix(spec)),
+        'treespec_is_prefix-strict': (optree.treespec_is_prefix(spec, spec, strict=True), spec.is_prefix(spec, strict=True)),
+    }
+    for name, (a, b) in twins.items():
+        if a != b or type(a) is not type(b):
+            ctx.violation('ops-wrappers', keyf('ops-wrappers'), case, f'{name}: {a!r} vs method {b!r}')
     if sum(c.num_leaves for c in children) != spec.num_leaves or sum(c.num_nodes for c in children) + 1 != spec.num_nodes:
         if d is not STAR:
             ctx.violation('children-sums', keyf('children-sums'), case, repr(spec))
